@@ -472,6 +472,27 @@ pub fn run(args: &Args) -> i32 {
             }
         }
     }
+    // (f) announcers whose clocks are not ours: a get_signed_peers lookup answered with GENUINELY signed records stamped an hour
+    // ago, now, 1 s / 45 s / 1 h ahead of the reader's clock, 0, the largest value, "negative" values
+    {
+        let times = ["time_past_1h", "time_now", "time_future_1s", "time_future_45s", "time_future_1h", "time_zero", "time_max", "time_negative"];
+        for (i, t) in times.iter().enumerate() {
+            for pos in 0..3usize {
+                let mut labels: Vec<String> = vec!["authentic".to_string(); 3];
+                labels[pos] = t.to_string();
+                // (every third run of the auth driver re-routes the victim's address first: keep b off those)
+                let ev = crate::drivers::auth::run_one(3 * (i as u64 * 3 + pos as u64), "signed_peers", &labels, seed ^ 0x71);
+                let panicked = ev["panicked"].as_bool().unwrap_or(true);
+                let done = ev["done"].as_bool().unwrap_or(false);
+                if panicked || !done {
+                    panics += 1;
+                }
+                out.line(&json!({"e":"shape","id":n,"mode":"signed_times","variant":t,"kind":"get_signed_peers","pos":pos,
+                    "panic":panicked,"alive_after":!panicked,"call_done":done,"yielded":ev["yielded"].as_array().map(|a| a.len()).unwrap_or(0)}));
+                n += 1;
+            }
+        }
+    }
     // (e) reply timing: every sequence of up to three delays (bounded-exhaustive), longer random ones in the thorough tier
     {
         const D: [u64; 8] = [5, 450, 505, 560, 700, 900, 2500, 6000];
